@@ -38,8 +38,11 @@ GenSizeConfs == Reg(2..5, 1..3, {-1, 2}, {<<0, FALSE>>}, BOOLEAN,
 \* minimum chunk length announced (enforced or not) against every chunk setting, on the plain POST
 \* and on the mount reply, direct chunked upload and fall-back; no partial acceptance, no faults
 GenMinConfs == Reg(0..4, 1..3, {-1, 2}, {<<2, TRUE>>, <<3, TRUE>>, <<3, FALSE>>}, {TRUE}, {"none", "right"}, {"else"}, {"query"})
-\* the three fault free, partial free breadth first spaces in one run
-GenBreadthConfs == GenDeclConfs \cup GenSizeConfs \cup GenMinConfs
+\* the single request upload is refused and the session keeps 0 .. all units of it (0, below one
+\* chunk, one chunk, several chunks, the whole blob), then the fall-back runs on that session
+GenKeepConfs == Reg({1, 3, 4, 6, 7}, 1..3, {-1}, {<<0, FALSE>>}, {TRUE}, {"right"}, {"else"}, {"query"})
+\* the four fault free, partial free breadth first spaces in one run
+GenBreadthConfs == GenDeclConfs \cup GenSizeConfs \cup GenMinConfs \cup GenKeepConfs
 \* the large space for random behaviours
 GenConfs == Reg(0..7, 1..3, {-1, 2, 4}, MinsT, BOOLEAN, Decls, {"else", "repo"}, {"plain", "query", "move"})
             \cup Oci(0..4, Decls)
